@@ -166,6 +166,15 @@ func (f *Func) redefineInputs(opts ...Arg) (reflect.Type, error) {
 	inputsProvided := map[interface{}]struct{}{}
 	for _, v := range vertexI {
 		inputsProvided[graph.VertexID(v)] = struct{}{}
+
+		// A typed input also provides the typed argument of the same type
+		// and subtype, which is a distinct vertex in the graph.
+		if out, ok := v.(*typedOutputVertex); ok {
+			inputsProvided[graph.VertexID(&typedArgVertex{
+				Type:    out.Type,
+				Subtype: out.Subtype,
+			})] = struct{}{}
+		}
 	}
 
 	// Build our required value
